@@ -220,6 +220,13 @@ class MapToMolecule(Processor):
             fragment_nodes = list(self.fragments[self.node_to_fragment[start_node]])
             self.added_fragment_nodes += fragment_nodes
 
+            # the residues of the fragment are numbered as in the residue
+            # graph in case we don't start with 1
+            block_resids = nx.get_node_attributes(new_mol, "resid")
+            offset = resid_dict[start_node] - min(block_resids.values())
+            for node, resid in block_resids.items():
+                new_mol.nodes[node]["resid"] = resid + offset
+
             # extract the nodes of this paticular residue and store a
             # dummy correspndance
             correspondence = {node:node for node in new_mol.nodes}
